@@ -212,3 +212,509 @@ Proof.
     + injection Hk as <-. replace (i + N.of_nat 0)%N with i by lia. exact H1.
     + replace (i + N.of_nat (S k))%N with (N.succ i + N.of_nat k)%N by lia. eapply IH; eauto.
 Qed.
+
+(** * Fuel: every parser consumes input, so the fuel given by the entry points suffices *)
+
+Ltac inv_ok :=
+  repeat match goal with
+         | H : Ok _ _ = Ok _ _ |- _ => inversion H; subst; clear H
+         | H : Some _ = Some _ |- _ => inversion H; subst; clear H
+         | H : (_, _) = (_, _) |- _ => inversion H; subst; clear H
+         end; try congruence.
+
+Ltac len := cbn [length] in *; try lia.
+
+Lemma brackets_len : forall ts i r, brackets ts = Some (i, r) -> length r + 3 = length ts.
+Proof. intros ts i r H; unfold brackets in H; repeat bmh; inv_ok; len. Qed.
+
+Lemma opt_i_len : forall ts b r, opt_i ts = (b, r) -> length r <= length ts.
+Proof. intros ts b r H; unfold opt_i in H; repeat bmh; inv_ok; len. Qed.
+
+Lemma immediate_len : forall ts im v r, immediate ts = Some (im, v, r) -> length r < length ts.
+Proof.
+  intros ts im v r H; unfold immediate in H; repeat bmh; inv_ok;
+    match goal with H : opt_i _ = _ |- _ => apply opt_i_len in H end; len.
+Qed.
+
+Lemma close_paren_len : forall A (x : res A) a r n,
+  (forall a' r', x = Ok a' r' -> length r' < n) -> close_paren x = Ok a r -> length r < n.
+Proof.
+  intros A x a r n Hx H; unfold close_paren in H; repeat bmh; inv_ok.
+  specialize (Hx _ _ eq_refl). len.
+Qed.
+
+Lemma primary_len : forall pe,
+  (forall ts e r, pe ts = Ok e r -> length r < length ts) ->
+  forall ts e r, primary pe ts = Ok e r -> length r < length ts.
+Proof.
+  intros pe Hpe ts e r H. unfold primary in H.
+  destruct (immediate ts) as [[[im v] r0]|] eqn:Hi.
+  - inv_ok. eapply immediate_len; eauto.
+  - destruct ts as [|t ts]; [discriminate|]. destruct t; try discriminate.
+    + (* TLParen *)
+      cbn [length]. apply Nat.lt_lt_succ_r.
+      eapply close_paren_len; [|exact H]. intros a' r' Ha. eapply Hpe; eauto.
+    + (* TId *)
+      destruct (brackets ts) as [[i r0]|] eqn:Hb.
+      * inv_ok. apply brackets_len in Hb. len.
+      * destruct (ident_class x) as [[]|]; inv_ok; len;
+          (destruct ts as [|[] ts']; try discriminate;
+           match goal with
+           | H : match close_paren (pe ?r1) with _ => _ end = Ok _ _ |- _ =>
+               destruct (close_paren (pe r1)) eqn:Hc; try discriminate; inv_ok;
+               assert (length r < length r1)
+                 by (eapply close_paren_len; [|exact Hc]; intros; eapply Hpe; eauto); len
+           end).
+    + (* TVar *) inv_ok. len.
+Qed.
+
+Lemma strip_minus_len : forall ts b r, strip_minus ts = (b, r) -> length r <= length ts.
+Proof. intros ts b r H; unfold strip_minus in H; repeat bmh; inv_ok; len. Qed.
+
+Lemma parse_e_len :
+  forall f, (forall p ts e r, parse_e f p ts = Ok e r -> length r < length ts) /\
+            (forall p l ts e r, loop_e f p l ts = Ok e r -> length r <= length ts).
+Proof.
+  induction f as [|f [IHp IHl]]; split; intros; cbn [parse_e loop_e] in H; try discriminate.
+  - destruct (strip_minus ts) as [neg ts1] eqn:Hs. apply strip_minus_len in Hs.
+    destruct (primary (parse_e f 0) ts1) eqn:Hp; try discriminate.
+    apply primary_len in Hp; [|intros; eapply IHp; eauto].
+    apply IHl in H. lia.
+  - destruct ts as [|t ts]; [inv_ok; len|]. destruct t; inv_ok; len.
+    destruct (Nat.ltb p (prec o)); [|inv_ok; len].
+    destruct (parse_e f (prec o) ts) eqn:Hp; try discriminate.
+    apply IHp in Hp. apply IHl in H. len.
+Qed.
+
+Lemma primary_fuel : forall pe ts,
+  (forall r, length r < length ts -> pe r <> Fuel) -> primary pe ts <> Fuel.
+Proof.
+  intros pe ts Hpe H. unfold primary in H.
+  destruct (immediate ts) as [[[im v] r0]|]; [discriminate|].
+  destruct ts as [|t ts]; [discriminate|]. destruct t; try discriminate.
+  - unfold close_paren in H. destruct (pe ts) eqn:Hc; try discriminate.
+    + repeat bmh.
+    + eapply Hpe; [|exact Hc]. len.
+  - destruct (brackets ts) as [[i r0]|]; [discriminate|].
+    destruct (ident_class x) as [[]|]; try discriminate;
+      (destruct ts as [|[] ts']; try discriminate; unfold close_paren in H;
+       destruct (pe ts') eqn:Hc; try discriminate; [repeat bmh | eapply Hpe; [|exact Hc]; len]).
+Qed.
+
+Lemma parse_e_fuel :
+  forall f, (forall p ts, length ts < f -> parse_e f p ts <> Fuel) /\
+            (forall p l ts, length ts < f -> loop_e f p l ts <> Fuel).
+Proof.
+  induction f as [|f [IHp IHl]]; split; intros; try lia; cbn [parse_e loop_e].
+  - destruct (strip_minus ts) as [neg ts1] eqn:Hs. apply strip_minus_len in Hs.
+    destruct (primary (parse_e f 0) ts1) eqn:Hp; try discriminate.
+    + apply primary_len in Hp; [|intros; eapply (proj1 (parse_e_len f)); eauto].
+      apply IHl. lia.
+    + exfalso. eapply primary_fuel; [|exact Hp]. intros r Hr. apply IHp. lia.
+  - destruct ts as [|t ts]; [discriminate|]. destruct t; try discriminate.
+    destruct (Nat.ltb p (prec o)); [|discriminate].
+    destruct (parse_e f (prec o) ts) eqn:Hp; try discriminate.
+    + apply (proj1 (parse_e_len f)) in Hp. apply IHl. len.
+    + exfalso. eapply IHp; [|exact Hp]. len.
+Qed.
+
+(** [parse_expression] never runs out of the fuel it gives itself *)
+Theorem p_expr_no_fuel : forall ts, p_expr ts <> Fuel.
+Proof. intros ts; unfold p_expr; apply parse_e_fuel; lia. Qed.
+
+Lemma p_expr_len : forall ts e r, p_expr ts = Ok e r -> length r < length ts.
+Proof. intros ts e r H; unfold p_expr in H; eapply (proj1 (parse_e_len _)); eauto. Qed.
+
+Lemma p_memref_len : forall ts m r, p_memref ts = Ok m r -> length r < length ts.
+Proof.
+  intros ts m r H; unfold p_memref in H; repeat bmh; inv_ok;
+    try match goal with H : brackets _ = Some _ |- _ => apply brackets_len in H end; len.
+Qed.
+
+Lemma p_qubit_len : forall ts q r, p_qubit ts = Ok q r -> length r < length ts.
+Proof. intros ts q r H; unfold p_qubit in H; repeat bmh; inv_ok; len. Qed.
+
+Lemma p_qubits_len : forall ts qs r, p_qubits ts = (qs, r) -> length r <= length ts.
+Proof.
+  induction ts as [|t ts IH]; intros qs r H; cbn [p_qubits] in H; [inv_ok; len|].
+  destruct t; inv_ok; len; destruct (p_qubits ts) as [qs' r'] eqn:Hq; inv_ok;
+    specialize (IH _ _ eq_refl); len.
+Qed.
+
+Lemma p_strings_len : forall ts l r, p_strings ts = (l, r) -> length r <= length ts.
+Proof.
+  induction ts as [|t ts IH]; intros l r H; cbn [p_strings] in H; [inv_ok; len|].
+  destruct t; inv_ok; len; destruct (p_strings ts) as [l' r'] eqn:Hq; inv_ok;
+    specialize (IH _ _ eq_refl); len.
+Qed.
+
+Lemma p_modifiers_len : forall ts l r, p_modifiers ts = (l, r) -> length r <= length ts.
+Proof.
+  induction ts as [|t ts IH]; intros l r H; cbn [p_modifiers] in H; [inv_ok; len|].
+  destruct t; inv_ok; len; destruct (p_modifiers ts) as [l' r'] eqn:Hq; inv_ok;
+    specialize (IH _ _ eq_refl); len.
+Qed.
+
+Lemma p_pragma_args_len : forall ts l r, p_pragma_args ts = (l, r) -> length r <= length ts.
+Proof.
+  induction ts as [|t ts IH]; intros l r H; cbn [p_pragma_args] in H; [inv_ok; len|].
+  destruct t; inv_ok; len; destruct (p_pragma_args ts) as [l' r'] eqn:Hq; inv_ok;
+    specialize (IH _ _ eq_refl); len.
+Qed.
+
+Lemma p_frame_len : forall ts f r, p_frame ts = Ok f r -> length r < length ts.
+Proof.
+  intros ts f r H; unfold p_frame in H. destruct (p_qubits ts) as [qs r0] eqn:Hq.
+  apply p_qubits_len in Hq. repeat bmh; inv_ok; len.
+Qed.
+
+Lemma p_expr_list_tail_len : forall f ts l r,
+  p_expr_list_tail f ts = Ok l r -> length r <= length ts.
+Proof.
+  induction f as [|f IH]; intros ts l r H; cbn [p_expr_list_tail] in H; [discriminate|].
+  destruct ts as [|t ts]; [inv_ok; len|]. destruct t; inv_ok; len.
+  destruct (p_expr ts) eqn:He; inv_ok; len.
+  apply p_expr_len in He. destruct (p_expr_list_tail f rest) eqn:Ht; inv_ok.
+  apply IH in Ht. len.
+Qed.
+
+Lemma p_expr_list_tail_nf : forall f ts, length ts < f -> p_expr_list_tail f ts <> Fuel.
+Proof.
+  induction f as [|f IH]; intros ts Hf; [lia|]. cbn [p_expr_list_tail].
+  destruct ts as [|t ts]; [discriminate|]. destruct t; try discriminate.
+  destruct (p_expr ts) eqn:He; try discriminate.
+  - apply p_expr_len in He. destruct (p_expr_list_tail f rest) eqn:Ht; try discriminate.
+    exfalso. eapply IH; [|exact Ht]. len.
+  - exfalso. eapply p_expr_no_fuel; eauto.
+Qed.
+
+Lemma p_expr_list_len : forall ts l r, p_expr_list ts = Ok l r -> length r <= length ts.
+Proof.
+  intros ts l r H; unfold p_expr_list in H. destruct (p_expr ts) eqn:He; inv_ok; len.
+  apply p_expr_len in He. destruct (p_expr_list_tail (S (length rest)) rest) eqn:Ht; inv_ok.
+  apply p_expr_list_tail_len in Ht. len.
+Qed.
+
+Lemma p_expr_list_nf : forall ts, p_expr_list ts <> Fuel.
+Proof.
+  intros ts H; unfold p_expr_list in H. destruct (p_expr ts) eqn:He; try discriminate.
+  - destruct (p_expr_list_tail (S (length rest)) rest) eqn:Ht; try discriminate.
+    eapply p_expr_list_tail_nf; [|exact Ht]. lia.
+  - eapply p_expr_no_fuel; eauto.
+Qed.
+
+Lemma p_params_len : forall ts l r, p_params ts = Ok l r -> length r <= length ts.
+Proof.
+  intros ts l r H; unfold p_params in H. destruct ts as [|t ts]; [inv_ok; len|].
+  destruct t; inv_ok; len. destruct (p_expr_list ts) eqn:He; inv_ok; len.
+  apply p_expr_list_len in He. repeat bmh; inv_ok; len.
+Qed.
+
+Lemma p_params_nf : forall ts, p_params ts <> Fuel.
+Proof.
+  intros ts H; unfold p_params in H. repeat bmh. eapply p_expr_list_nf; eauto.
+Qed.
+
+Lemma p_gate_len : forall ts i r, p_gate ts = Ok i r -> length r < length ts.
+Proof.
+  intros ts i r H; unfold p_gate, bind in H. destruct (p_modifiers ts) as [mods r0] eqn:Hm.
+  apply p_modifiers_len in Hm. destruct r0 as [|t r0]; [discriminate|]. destruct t; try discriminate.
+  destruct (p_params r0) eqn:Hp; try discriminate. apply p_params_len in Hp.
+  destruct (p_qubits rest) as [qs r3] eqn:Hq. apply p_qubits_len in Hq. inv_ok. len.
+Qed.
+
+Lemma p_gate_nf : forall ts, p_gate ts <> Fuel.
+Proof.
+  intros ts H; unfold p_gate, bind in H. repeat bmh. eapply p_params_nf; eauto.
+Qed.
+
+Lemma named_key_len : forall ts k r, named_key ts = Some (k, r) -> length r + 2 = length ts.
+Proof. intros ts k r H; unfold named_key in H; repeat bmh; inv_ok; len. Qed.
+
+Lemma p_named_args_tail_len : forall f ts l r,
+  p_named_args_tail f ts = Ok l r -> length r <= length ts.
+Proof.
+  induction f as [|f IH]; intros ts l r H; cbn [p_named_args_tail] in H; [discriminate|].
+  destruct ts as [|t ts]; [inv_ok; len|]. destruct t; inv_ok; len.
+  destruct (named_key ts) as [[k r0]|] eqn:Hk; inv_ok; len. apply named_key_len in Hk.
+  destruct (p_expr r0) eqn:He; inv_ok; len.
+  apply p_expr_len in He. destruct (p_named_args_tail f rest) eqn:Ht; inv_ok.
+  apply IH in Ht. len.
+Qed.
+
+Lemma p_named_args_tail_nf : forall f ts, length ts < f -> p_named_args_tail f ts <> Fuel.
+Proof.
+  induction f as [|f IH]; intros ts Hf; [lia|]. cbn [p_named_args_tail].
+  destruct ts as [|t ts]; [discriminate|]. destruct t; try discriminate.
+  destruct (named_key ts) as [[k r0]|] eqn:Hk; try discriminate. apply named_key_len in Hk.
+  destruct (p_expr r0) eqn:He; try discriminate.
+  - apply p_expr_len in He. destruct (p_named_args_tail f rest) eqn:Ht; try discriminate.
+    exfalso. eapply IH; [|exact Ht]. len.
+  - exfalso. eapply p_expr_no_fuel; eauto.
+Qed.
+
+Lemma p_named_args_len : forall ts l r, p_named_args ts = Ok l r -> length r <= length ts.
+Proof.
+  intros ts l r H; unfold p_named_args in H.
+  destruct (named_key ts) as [[k r0]|] eqn:Hk; inv_ok; len. apply named_key_len in Hk.
+  destruct (p_expr r0) eqn:He; inv_ok; len. apply p_expr_len in He.
+  destruct (p_named_args_tail (S (length rest)) rest) eqn:Ht; inv_ok.
+  apply p_named_args_tail_len in Ht. len.
+Qed.
+
+Lemma p_named_args_nf : forall ts, p_named_args ts <> Fuel.
+Proof.
+  intros ts H; unfold p_named_args in H.
+  destruct (named_key ts) as [[k r0]|]; try discriminate.
+  destruct (p_expr r0) eqn:He; try discriminate.
+  - destruct (p_named_args_tail (S (length rest)) rest) eqn:Ht; try discriminate.
+    eapply p_named_args_tail_nf; [|exact Ht]. lia.
+  - eapply p_expr_no_fuel; eauto.
+Qed.
+
+Lemma wf_ext_len : forall ts x r, wf_ext ts = Some (x, r) -> length r + 2 = length ts.
+Proof. intros ts x r H; unfold wf_ext in H; repeat bmh; inv_ok; len. Qed.
+
+Lemma p_waveform_len : forall ts w r, p_waveform ts = Ok w r -> length r < length ts.
+Proof.
+  intros ts w r H; unfold p_waveform in H.
+  destruct ts as [|t ts]; [discriminate|]. destruct t; try discriminate.
+  destruct (wf_ext ts) as [[ext r0]|] eqn:Hw; [apply wf_ext_len in Hw|];
+    repeat bmh; inv_ok; len;
+    match goal with H : p_named_args _ = Ok _ _ |- _ => apply p_named_args_len in H end; len.
+Qed.
+
+Lemma p_waveform_nf : forall ts, p_waveform ts <> Fuel.
+Proof.
+  intros ts H; unfold p_waveform in H. repeat bmh; eapply p_named_args_nf; eauto.
+Qed.
+
+Lemma signed_int_len : forall vr op v r o r', signed_int vr op v r = Ok o r' -> r' = r.
+Proof. intros vr op v r o r' H; unfold signed_int in H; repeat bmh; inv_ok. Qed.
+
+Lemma signed_real_len : forall vr op f r o r', signed_real vr op f r = Ok o r' -> r' = r.
+Proof. intros vr op f r o r' H; unfold signed_real in H; repeat bmh; inv_ok. Qed.
+
+Lemma p_arith_operand_len : forall vr ts o r, p_arith_operand vr ts = Ok o r -> length r < length ts.
+Proof.
+  intros vr ts o r H; unfold p_arith_operand, bind in H.
+  repeat bmh; inv_ok;
+    try (match goal with H : signed_int _ _ _ _ = Ok _ _ |- _ => apply signed_int_len in H end);
+    try (match goal with H : signed_real _ _ _ _ = Ok _ _ |- _ => apply signed_real_len in H end);
+    try (match goal with H : p_memref _ = Ok _ _ |- _ => apply p_memref_len in H end);
+    subst; len.
+Qed.
+
+Lemma p_logic_operand_len : forall vr ts o r, p_logic_operand vr ts = Ok o r -> length r < length ts.
+Proof.
+  intros vr ts o r H; unfold p_logic_operand, bind in H.
+  repeat bmh; inv_ok;
+    try (match goal with H : signed_int _ _ _ _ = Ok _ _ |- _ => apply signed_int_len in H end);
+    try (match goal with H : p_memref _ = Ok _ _ |- _ => apply p_memref_len in H end);
+    subst; len.
+Qed.
+
+Lemma p_call_arg_len : forall ts a r, p_call_arg ts = Some (a, r) -> length r < length ts.
+Proof.
+  intros ts a r H; unfold p_call_arg in H.
+  repeat bmh; inv_ok;
+    try (match goal with H : brackets _ = Some _ |- _ => apply brackets_len in H end);
+    try (match goal with H : immediate _ = Some _ |- _ => apply immediate_len in H end); len.
+Qed.
+
+Lemma p_call_args_len : forall f ts l r, p_call_args f ts = (l, r) -> length r <= length ts.
+Proof.
+  induction f as [|f IH]; intros ts l r H; cbn [p_call_args] in H; [inv_ok; len|].
+  destruct (p_call_arg ts) as [[a r0]|] eqn:Ha; [|inv_ok; len].
+  apply p_call_arg_len in Ha. destruct (p_call_args f r0) as [l' r'] eqn:Hc. inv_ok.
+  apply IH in Hc. len.
+Qed.
+
+Lemma p_offsets_len : forall n ts l r, length ts <= n -> p_offsets ts = (l, r) -> length r <= length ts.
+Proof.
+  induction n as [|n IH]; intros ts l r Hn H.
+  - destruct ts; [cbn in H; inv_ok; len | cbn in Hn; lia].
+  - destruct ts as [|t ts]; cbn [p_offsets] in H; [inv_ok; len|].
+    destruct t; inv_ok; len. destruct ts as [|t2 ts]; [inv_ok; len|]. destruct t2; inv_ok; len.
+    destruct (p_offsets ts) as [l' r'] eqn:Ho. inv_ok. apply IH in Ho; len.
+Qed.
+
+Lemma p_sharing_len : forall ts s r, p_sharing ts = (s, r) -> length r <= length ts.
+Proof.
+  intros ts s r H; unfold p_sharing in H.
+  repeat bmh; inv_ok; len;
+    match goal with H : p_offsets ?x = _ |- _ => apply (p_offsets_len (length x)) in H; [|lia] end; len.
+Qed.
+
+Lemma p_declare_len : forall ts i r, p_declare ts = Ok i r -> length r <= length ts.
+Proof.
+  intros ts i r H; unfold p_declare in H.
+  destruct ts as [|t ts]; [discriminate|]. destruct t; try discriminate.
+  destruct ts as [|t2 ts]; [discriminate|]. destruct t2; try discriminate.
+  destruct (brackets ts) as [[n r']|] eqn:Hb.
+  - apply brackets_len in Hb. destruct (p_sharing r') as [sh r2] eqn:Hs. apply p_sharing_len in Hs.
+    inv_ok. len.
+  - destruct (p_sharing ts) as [sh r2] eqn:Hs. apply p_sharing_len in Hs. inv_ok. len.
+Qed.
+
+Lemma p_delay_len : forall ts i r, p_delay ts = Ok i r -> length r <= length ts.
+Proof.
+  intros ts i r H; unfold p_delay in H.
+  destruct (p_qubits ts) as [qs r1] eqn:Hq. apply p_qubits_len in Hq.
+  destruct (p_strings r1) as [names r2] eqn:Hs. apply p_strings_len in Hs.
+  destruct (p_expr r2) eqn:He; try discriminate.
+  - apply p_expr_len in He. inv_ok. len.
+  - repeat bmh; inv_ok; len.
+Qed.
+
+Lemma p_delay_nf : forall ts, p_delay ts <> Fuel.
+Proof. intros ts H; unfold p_delay in H; repeat bmh; eapply p_expr_no_fuel; eauto. Qed.
+
+Lemma p_measure_len : forall ts i r, p_measure ts = Ok i r -> length r <= length ts.
+Proof.
+  intros ts i r H; unfold p_measure, bind in H.
+  repeat bmh; inv_ok;
+    repeat (match goal with
+            | H : p_qubit _ = Ok _ _ |- _ => apply p_qubit_len in H
+            | H : p_memref _ = Ok _ _ |- _ => apply p_memref_len in H
+            end); len.
+Qed.
+
+Ltac use_len :=
+  repeat (match goal with
+          | H : p_qubit _ = Ok _ _ |- _ => apply p_qubit_len in H
+          | H : p_memref _ = Ok _ _ |- _ => apply p_memref_len in H
+          | H : p_frame _ = Ok _ _ |- _ => apply p_frame_len in H
+          | H : p_expr _ = Ok _ _ |- _ => apply p_expr_len in H
+          | H : p_waveform _ = Ok _ _ |- _ => apply p_waveform_len in H
+          | H : p_arith_operand _ _ = Ok _ _ |- _ => apply p_arith_operand_len in H
+          | H : p_logic_operand _ _ = Ok _ _ |- _ => apply p_logic_operand_len in H
+          | H : p_qubits _ = (_, _) |- _ => apply p_qubits_len in H
+          | H : p_pragma_args _ = (_, _) |- _ => apply p_pragma_args_len in H
+          | H : p_call_args _ _ = (_, _) |- _ => apply p_call_args_len in H
+          end).
+
+Ltac use_nf :=
+  exfalso;
+  first [ eapply p_expr_no_fuel; eassumption | eapply p_waveform_nf; eassumption
+        | eapply p_gate_nf; eassumption | eapply p_delay_nf; eassumption ].
+
+Lemma p_frame_expr_len : forall c ts i r, p_frame_expr c ts = Ok i r -> length r <= length ts.
+Proof. intros c ts i r H; unfold p_frame_expr, bind in H; repeat bmh; inv_ok; use_len; len. Qed.
+Lemma p_pulse_len : forall b ts i r, p_pulse b ts = Ok i r -> length r <= length ts.
+Proof. intros b ts i r H; unfold p_pulse, bind in H; repeat bmh; inv_ok; use_len; len. Qed.
+Lemma p_capture_len : forall b ts i r, p_capture b ts = Ok i r -> length r <= length ts.
+Proof. intros b ts i r H; unfold p_capture, bind in H; repeat bmh; inv_ok; use_len; len. Qed.
+Lemma p_raw_capture_len : forall b ts i r, p_raw_capture b ts = Ok i r -> length r <= length ts.
+Proof. intros b ts i r H; unfold p_raw_capture, bind in H; repeat bmh; inv_ok; use_len; len. Qed.
+
+Lemma p_frame_expr_nf : forall c ts, p_frame_expr c ts <> Fuel.
+Proof. intros c ts H; unfold p_frame_expr, bind, p_frame in H; repeat bmh; use_nf. Qed.
+Lemma p_pulse_nf : forall b ts, p_pulse b ts <> Fuel.
+Proof. intros b ts H; unfold p_pulse, bind, p_frame in H; repeat bmh; use_nf. Qed.
+Lemma p_capture_nf : forall b ts, p_capture b ts <> Fuel.
+Proof. intros b ts H; unfold p_capture, bind, p_frame, p_memref in H; repeat bmh; use_nf. Qed.
+Lemma p_raw_capture_nf : forall b ts, p_raw_capture b ts <> Fuel.
+Proof. intros b ts H; unfold p_raw_capture, bind, p_frame, p_memref in H; repeat bmh; use_nf. Qed.
+
+Lemma p_command_len : forall vr c ts i r, p_command vr c ts = Ok i r -> length r <= length ts.
+Proof.
+  intros vr c ts i r H; destruct c; cbn [p_command] in H; unfold bind, p_target in H;
+    try discriminate;
+    try (apply p_delay_len in H; exact H); try (apply p_measure_len in H; exact H);
+    try (apply p_declare_len in H; exact H); try (apply p_pulse_len in H; exact H);
+    try (apply p_capture_len in H; exact H); try (apply p_raw_capture_len in H; exact H);
+    try (apply p_frame_expr_len in H; exact H);
+    repeat bmh; inv_ok; use_len; len.
+Qed.
+
+Lemma p_memref_nf : forall ts, p_memref ts <> Fuel.
+Proof. intros ts H; unfold p_memref in H; repeat bmh. Qed.
+Lemma p_qubit_nf : forall ts, p_qubit ts <> Fuel.
+Proof. intros ts H; unfold p_qubit in H; repeat bmh. Qed.
+Lemma p_frame_nf : forall ts, p_frame ts <> Fuel.
+Proof. intros ts H; unfold p_frame in H; repeat bmh. Qed.
+Lemma p_arith_operand_nf : forall vr ts, p_arith_operand vr ts <> Fuel.
+Proof.
+  intros vr ts H; unfold p_arith_operand, bind, signed_int, signed_real in H; repeat bmh;
+    eapply p_memref_nf; eauto.
+Qed.
+Lemma p_logic_operand_nf : forall vr ts, p_logic_operand vr ts <> Fuel.
+Proof.
+  intros vr ts H; unfold p_logic_operand, bind, signed_int in H; repeat bmh;
+    eapply p_memref_nf; eauto.
+Qed.
+Lemma p_measure_nf : forall ts, p_measure ts <> Fuel.
+Proof. intros ts H; unfold p_measure, bind in H; repeat bmh; eapply p_qubit_nf; eauto. Qed.
+Lemma p_declare_nf : forall ts, p_declare ts <> Fuel.
+Proof. intros ts H; unfold p_declare in H; repeat bmh. Qed.
+
+Ltac kill_nf :=
+  exfalso;
+  first [ eapply p_expr_no_fuel; eassumption | eapply p_memref_nf; eassumption
+        | eapply p_qubit_nf; eassumption | eapply p_frame_nf; eassumption
+        | eapply p_waveform_nf; eassumption | eapply p_arith_operand_nf; eassumption
+        | eapply p_logic_operand_nf; eassumption | eapply p_gate_nf; eassumption ].
+
+Lemma p_command_nf : forall vr c ts, p_command vr c ts <> Fuel.
+Proof.
+  intros vr c ts; destruct c; cbn [p_command]; unfold bind, p_target;
+    try apply p_delay_nf; try apply p_measure_nf; try apply p_declare_nf; try apply p_pulse_nf;
+    try apply p_capture_nf; try apply p_raw_capture_nf; try apply p_frame_expr_nf;
+    try congruence; repeat bmh; kill_nf.
+Qed.
+
+Lemma p_instruction_len : forall vr ts i r, p_instruction vr ts = Ok i r -> length r < length ts.
+Proof.
+  intros vr ts i r H; unfold p_instruction in H.
+  destruct ts as [|t ts]; [discriminate|].
+  destruct t; try discriminate.
+  - apply p_command_len in H. len.
+  - repeat bmh; inv_ok;
+      try (match goal with H : p_pulse _ _ = Ok _ _ |- _ => apply p_pulse_len in H end);
+      try (match goal with H : p_capture _ _ = Ok _ _ |- _ => apply p_capture_len in H end);
+      try (match goal with H : p_raw_capture _ _ = Ok _ _ |- _ => apply p_raw_capture_len in H end);
+      len.
+  - apply p_gate_len in H. exact H.
+  - apply p_gate_len in H. exact H.
+Qed.
+
+Lemma p_instruction_nf : forall vr ts, p_instruction vr ts <> Fuel.
+Proof.
+  intros vr ts H; unfold p_instruction in H.
+  destruct ts as [|t ts]; [discriminate|].
+  destruct t; try discriminate.
+  - eapply p_command_nf; eauto.
+  - repeat bmh; first [eapply p_pulse_nf; eassumption | eapply p_capture_nf; eassumption
+                      | eapply p_raw_capture_nf; eassumption].
+  - eapply p_gate_nf; eauto.
+  - eapply p_gate_nf; eauto.
+Qed.
+
+Lemma skip_len : forall ts, length (skip ts) <= length ts.
+Proof.
+  induction ts as [|t ts IH]; cbn [skip]; [lia|].
+  destruct t; cbn [length]; try lia. destruct (indents_then_comment ts); cbn [length]; lia.
+Qed.
+
+Lemma p_program_loop_nf : forall vr f ts, length ts < f -> p_program_loop vr f ts <> Fuel.
+Proof.
+  induction f as [|f IH]; intros ts Hf; [lia|]. cbn [p_program_loop].
+  pose proof (skip_len ts) as Hs.
+  destruct (skip ts) as [|t ts1] eqn:Hsk; [discriminate|].
+  destruct (p_instruction vr (t :: ts1)) eqn:Hi; try discriminate.
+  - apply p_instruction_len in Hi. destruct (p_program_loop vr f rest) eqn:Hl; try discriminate.
+    exfalso. eapply IH; [|exact Hl]. len.
+  - exfalso. eapply p_instruction_nf; eauto.
+Qed.
+
+(** every entry point, with the fuel it gives itself, terminates with a verdict *)
+Theorem run_no_fuel : forall vr e ts, run vr e ts <> OFuel.
+Proof.
+  intros vr e ts; destruct e; cbn [run]; unfold all_consumed, p_program.
+  - repeat bmh. exfalso; eapply p_program_loop_nf; [|eassumption]. lia.
+  - repeat bmh. exfalso; eapply p_program_loop_nf; [|eassumption]. lia.
+  - repeat bmh. exfalso; eapply p_expr_no_fuel; eassumption.
+  - unfold p_memref; repeat bmh.
+  - unfold p_frame; repeat bmh.
+Qed.
